@@ -197,6 +197,15 @@ func GenOp(r *rand.Rand, st *GenState) Op {
 	case x < 55 && !st.NoScripts:
 		o = Op{Kind: "script", Metadata: GenMeta(r, 2)}
 		o.Plain, o.Vars = GenScript(r, st)
+		if r.Intn(4) == 0 {
+			// request-level account metadata next to the script's own set_account_meta: half of the
+			// time on the very account the script annotates (other keys), otherwise on another one
+			a := pick(r, GenAccounts[1:])
+			if mm := reSetAccountMeta.FindStringSubmatch(o.Plain); mm != nil && r.Intn(2) == 0 {
+				a = mm[1]
+			}
+			o.AccountMetadata = map[string]map[string]string{a: GenMeta(r, 2)}
+		}
 		if st.Interp && r.Intn(3) == 0 {
 			o.Runtime = "experimental-interpreter"
 		}
